@@ -126,13 +126,14 @@ func porcupineModel(init *Model) porcupine.Model {
 }
 
 // concScenarios biases the tasks towards collisions on one table and key.
-var concScenarios = []string{"add-race", "put-race", "del-race", "index-read", "panic", "create-native", "batch-toggle", "create-race", "describe-write", "lifecycle", "toggle", "batch", "mix", "mix"}
+var concScenarios = []string{"add-race", "put-race", "del-race", "index-read", "panic", "create-native", "batch-toggle", "create-race", "describe-write", "lifecycle", "toggle", "batch", "mix", "mix", "big-backfill"}
 
 type concGen struct {
 	*Gen
 	scenario string
 	hotKey   Item
 	uniq     int
+	loaded   []Item // big-backfill: keys of the items loaded before the tasks start
 }
 
 func (g *concGen) uniqS(task, i int) AV {
@@ -303,6 +304,24 @@ func (g *concGen) concCmd(m *Model, task, i int) *Cmd {
 		case 3:
 			return &Cmd{Op: "Native", Native: "activate"}
 		}
+	case "big-backfill":
+		// an index created over a table of more than 32 items while writers run
+		if task == 0 && i == 0 {
+			ix := IndexDef{Name: "gsi1", Kind: "gsi", Hash: KeyDef{"g1", "S"}}
+			return &Cmd{Op: "IndexCreate", T: t0, IdxDef: &ix}
+		}
+		switch r.Intn(5) {
+		case 0, 1:
+			return &Cmd{Op: "Delete", T: t0, Key: pick(r, g.loaded[:12]).Clone()}
+		case 2:
+			k := pick(r, g.loaded[:12]).Clone()
+			k[def0.Hash.Name] = S(fmt.Sprintf("a%02d", r.Intn(20))) // sorts before every loaded key
+			c := put(k)
+			c.Item["g1"] = g.idxAttrVal(t0, "g1", "S")
+			return c
+		case 3:
+			return &Cmd{Op: "Scan", T: t0}
+		}
 	case "toggle":
 		if r.Chance(0.35) {
 			if r.Chance(0.5) {
@@ -362,7 +381,10 @@ func ConcPlanFor(seed uint64) (*Plan, string) {
 	}
 	t0 := g.W.Tables[0].Name
 	def0 := g.defs[t0][0]
-	if g.scenario == "lifecycle" {
+	if g.scenario == "big-backfill" && def0.Hash.Type != "S" {
+		g.scenario = "lifecycle"
+	}
+	if g.scenario == "lifecycle" || g.scenario == "big-backfill" {
 		// gsi1 is created and dropped by the tasks
 		var keep []IndexDef
 		for _, ix := range def0.Indexes {
@@ -423,6 +445,32 @@ func ConcPlanFor(seed uint64) (*Plan, string) {
 			d.ID, d.C = g.id(), 1
 			m.Apply(d)
 			p.Cmds = append(p.Cmds, d)
+		}
+	}
+	if g.scenario == "big-backfill" {
+		n := r.Range(33, 40)
+		for start := 0; start < n; start += 25 {
+			b := &Cmd{ID: g.id(), Op: "BatchWrite", Actor: "setup"}
+			for j := start; j < n && j < start+25; j++ {
+				k := Item{def0.Hash.Name: S(fmt.Sprintf("b%02d", j))}
+				if def0.Range != nil {
+					k[def0.Range.Name] = g.W.Tables[0].RangeVals[0]
+				}
+				if start == 0 {
+					g.loaded = append(g.loaded, k.Clone())
+				}
+				it := k.Clone()
+				it["g1"] = g.idxAttrVal(t0, "g1", "S")
+				b.Batch = append(b.Batch, BatchReq{T: t0, Put: it})
+			}
+			m.Apply(b)
+			p.Cmds = append(p.Cmds, b)
+			if twoClients {
+				d := b.clone()
+				d.ID, d.C = g.id(), 1
+				m.Apply(d)
+				p.Cmds = append(p.Cmds, d)
+			}
 		}
 	}
 	nT, maxOps, maxPer := r.Range(2, 4), 12, 4
